@@ -716,6 +716,25 @@ macro_rules! boxed_bitwise {
     }};
 }
 
+
+/// different precisions on the two sides, both operands with significant bits in every limb, every form each time
+/// (a narrower right-hand side counts as zero-extended: `a & b` clears the limbs of `a` above it)
+fn boxed_bitwise_mixed(cx: &mut Cx, iters: usize) {
+    for it in 0..iters {
+        let n = 2 + it % 9;
+        let m = if it % 2 == 0 { 1 + (it / 2) % (n - 1) } else { n + 1 + it % 3 };
+        let full = |r: &mut Rng, k: usize| -> Vec<u64> { let mut v = nat(r, k); for w in v.iter_mut() { *w |= 0x8000_0000_0001_0000; } v };
+        let (x, y) = (full(&mut cx.rng, n), full(&mut cx.rng, m));
+        let bits = 64 * n.max(m);
+        let (a, b) = (bx(&x), bx(&y));
+        for f in 0..15usize {
+            boxed_bitwise!(cx, f, "and", bits, &a, &b, &x, &y, false; bitand, wrapping_and, checked_and, &, &=);
+            boxed_bitwise!(cx, f, "or", bits, &a, &b, &x, &y, false; bitor, wrapping_or, checked_or, |, |=);
+            boxed_bitwise!(cx, f, "xor", bits, &a, &b, &x, &y, false; bitxor, wrapping_xor, checked_xor, ^, ^=);
+        }
+    }
+}
+
 fn boxed_bitwise_all(cx: &mut Cx, iters: usize) {
     let mut rot = 0usize;
     for it in 0..iters {
@@ -851,6 +870,7 @@ fn main() {
         int_bitwise::<3>(&mut cx, 40 * s);
         int_bitwise::<4>(&mut cx, 40 * s);
         boxed_bitwise_all(&mut cx, 240 * s);
+        boxed_bitwise_mixed(&mut cx, 24 * s);
         limb_bitwise(&mut cx, 120 * s);
     }
     cx.finish();
